@@ -733,7 +733,9 @@ def step (cfg : Cfg) (s : State) (op : Op) : State × Out :=
         if hlen hd = 0 || n = 1 then
           let (s1, r, ev) := cloneRepr cfg s hd
           install s1 d r hd.tainted .unit ev
-        else if hlen hd * n < U then
+        -- `checked_mul` must not overflow AND `[u8]::repeat`'s `Vec::with_capacity` refuses more
+        -- than `isize::MAX` bytes ("capacity overflow"): both panic
+        else if hlen hd * n < U / 2 then
           let bs := (List.replicate n (view s hd)).flatten
           if hlen hd * n ≤ cfg.icap then install s d (.inline bs) false .unit []
           else
